@@ -397,6 +397,18 @@ def _single_def(fnode, name):
     others = [n for n in ast.walk(fnode) if isinstance(n, ast.Name) and n.id == name and isinstance(n.ctx, ast.Store)]
     if len(defs) == 1 and len(others) == 1:
         return defs[0].value
+    # `name = <a>` followed, in the same straight-line block and before any use, by `name += <b>` steps: <a> + <b>
+    augs = [n for n in ast.walk(fnode) if isinstance(n, ast.AugAssign) and isinstance(n.target, ast.Name) and n.target.id == name]
+    if len(defs) == 1 and augs and len(others) == 1 + len(augs) and all(isinstance(a.op, ast.Add) for a in augs):
+        body = getattr(fnode, "body", [])
+        if defs[0] in body and all(a in body for a in augs):
+            last = max(a.lineno for a in augs)
+            loads = [n for n in ast.walk(fnode) if isinstance(n, ast.Name) and n.id == name and isinstance(n.ctx, ast.Load)]
+            if min(a.lineno for a in augs) > defs[0].lineno and all(n.lineno > last for n in loads):
+                val = defs[0].value
+                for a in sorted(augs, key=lambda a: a.lineno):
+                    val = ast.copy_location(ast.BinOp(left=val, op=ast.Add(), right=a.value), a)
+                return val
     return None
 
 
